@@ -11,7 +11,7 @@ try:
     r = d + "/r"
     subprocess.check_call(["git", "-C", r, "apply", os.path.abspath(patch)])
     for pid in ids:
-        env = dict(os.environ, VERIF_REPO=r)
+        env = dict(os.environ, VERIF_REPO=r, VERIF_EVIDENCE=os.path.join(os.path.dirname(r), "evidence"), VERIF_REPLAYS=os.path.join(V, "replays"))
         p = subprocess.run(["python3", "tools/check.py", pid], cwd=V, env=env, stdout=subprocess.PIPE, stderr=subprocess.STDOUT)
         out = p.stdout.decode(errors="replace")
         v = [l for l in out.splitlines() if l.startswith("VIOLATION") or l.startswith("KNOWN")]
